@@ -1,5 +1,6 @@
 import TrVerif.Model.Block
 import TrVerif.Model.Osrm
+import TrVerif.Model.LoadDriver
 open Tr
 
 partial def loop (h : IO.FS.Stream) (st : DState) : IO Unit := do
@@ -32,6 +33,15 @@ def c20Classes : List String :=
 def main (args : List String) : IO Unit := do
   match args with
   | ["--c20-classes"] => for l in c20Classes do IO.println l
+  | ["--encode", f] => do
+    let txt ← IO.FS.readFile f
+    let st := (txt.splitOn "\n").foldl (fun (st : DState) l => match words l with
+      | [] => st
+      | ws => (dataLine st ws).getD st) {}
+    for l in Load.printRecords (Load.encode st.ds) do IO.println l
+  | ["--load", f] => do
+    let txt ← IO.FS.readFile f
+    for l in Load.printLoaded (Load.loadAll (Load.parseRecords (txt.splitOn "\n"))) do IO.println l
   | [f] => do
     let hnd ← IO.FS.Handle.mk f IO.FS.Mode.read
     loop (IO.FS.Stream.ofHandle hnd) {}
